@@ -139,6 +139,20 @@ def run(ctx):
         d = mux.drivers('self._interfaces[*].tokenizer.' + fld, exact=True)
         ctx.ob('C12.mux-broadcast', 'USBEndpointMultiplexer.tokenizer.' + fld, len(d) == 1 and d[0].rhs.canon() == 'self.shared.tokenizer.' + fld and not d[0].guard,
                d[0].loc if d else None, 'token information is broadcast unmodified to every endpoint')
+    # the data toggle handed to the packet generator is that of the endpoint that transmits NOW or transmitted one cycle ago
+    # (the generator latches it as the packet starts): whatever register takes part in that selection is an unconditional
+    # one-cycle copy of the endpoints' tx.valid -- a sticky copy would let the endpoint that transmitted last win over the
+    # one that starts a packet
+    tg = mux.drivers('self.shared.tx_pid_toggle', exact=True)
+    sel_regs = sorted({n for a in tg for l in a.guard if isinstance(l.e, E) for n in l.e.sigs()
+                       if any(x.domain != 'comb' for x in mux.drivers(n))})
+    for r_ in sel_regs:
+        dr = mux.drivers(r_)
+        ok_ = len(dr) == 1 and not dr[0].guard and dr[0].state is None and isinstance(dr[0].rhs, E) and \
+            dr[0].rhs.canon() in ('self._interfaces[*].tx.valid', 'Cat(self._interfaces[*].tx.valid)')
+        ctx.ob('C12.mux-toggle-select', 'USBEndpointMultiplexer.tx_pid_toggle.%s' % r_, ok_, dr[0].loc if dr else None,
+               'the register %s used to select the data toggle must be the unconditional one-cycle copy of the endpoints\' '
+               'tx.valid: %s' % (r_, [q.fmt(x) for x in dr]))
     d = mux.drivers('self._interfaces[*].handshakes_in.ack', exact=True)
     ctx.ob('C12.mux-broadcast', 'USBEndpointMultiplexer.handshakes_in.ack', len(d) == 1 and d[0].rhs.canon() == 'self.shared.handshakes_in.ack', None,
            'host handshakes are broadcast to every endpoint (hence the need for per-endpoint attribution)')
